@@ -24,9 +24,23 @@ def _untrackable(fn):
     return bad
 
 
-def kreach(P, fn, start_blocks, facts=None, stop=()):
-    """Blocks reachable from start_blocks; `facts` is an initial {local: ("variant", i) | ("const", c)}."""
+def kreach(P, fn, start_blocks, facts=None, stop=(), on_call=None):
+    """Blocks reachable from start_blocks; `facts` is an initial {local: ("variant", i) | ("const", c)}.
+    on_call(block, terminator, env) is invoked for every call reached, with what is known on that path."""
     bad = _untrackable(fn)
+    refs = {}
+    same_some = {}  # Option local -> Option local it was derived from by a Some-ness preserving adapter
+    for b_ in fn.blocks:
+        t_ = b_["t"]
+        if t_["k"] == "call" and t_.get("f") and t_["args"] and not t_["d"][1] and "option::Option" in t_["f"]["name"] \
+                and t_["f"]["id"].rsplit("::", 1)[1] in ("as_ref", "as_mut", "map", "as_deref", "as_deref_mut", "cloned", "copied", "inspect"):
+            a0 = op_local(t_["args"][0])
+            if a0 and not a0[1]:
+                same_some[t_["d"][0]] = a0[0]
+    for b_ in fn.blocks:
+        for st_ in b_["s"]:
+            if st_[0] == "a" and not st_[1][1] and st_[2]["k"] == "ref" and not st_[2]["p"][1] and not st_[2].get("m"):
+                refs[st_[1][0]] = st_[2]["p"][0]
     stop = set(stop)
     init = frozenset((facts or {}).items())
     seen = set()
@@ -43,6 +57,7 @@ def kreach(P, fn, start_blocks, facts=None, stop=()):
         if bi in stop:
             continue
         env = dict(fs)
+        discr_of = {}
         blk = fn.blocks[bi]
         for st in blk["s"]:
             if st[0] == "sdisc":
@@ -68,6 +83,8 @@ def kreach(P, fn, start_blocks, facts=None, stop=()):
                 v = env.get(rv["p"][0])
                 if v and v[0] == "variant":
                     val = ("const", v[1])
+                else:
+                    discr_of[d[0]] = rv["p"][0]
             if val is not None and d[0] not in bad:
                 env[d[0]] = val
             else:
@@ -87,10 +104,19 @@ def kreach(P, fn, start_blocks, facts=None, stop=()):
                         val = ("variant", 0 if v[1] == 0 else 1)  # Ok -> Continue, Err -> Break
                     elif st_.startswith("core::option::Option"):
                         val = ("variant", 0 if v[1] == 1 else 1)  # Some -> Continue, None -> Break
+            if f and f["id"].rsplit("::", 1)[1] in ("is_none", "is_some") and t["args"] and ("option::Option" in f["name"]):
+                ol = op_local(t["args"][0])
+                tgt = refs.get(ol[0]) if ol and not ol[1] else None
+                v = env.get(tgt) if tgt is not None else (env.get(ol[0]) if ol and not ol[1] else None)
+                if v and v[0] == "variant":
+                    is_none = (v[1] == 0)
+                    val = ("const", 1 if (is_none == (f["id"].endswith("is_none"))) else 0)
             if not d[1] and val is not None and d[0] not in bad:
                 env[d[0]] = val
             else:
                 env.pop(d[0], None)
+            if on_call is not None:
+                on_call(bi, t, env)
             if t.get("t") is not None:
                 work.append((t["t"], frozenset(env.items())))
         elif k == "switch":
@@ -101,9 +127,74 @@ def kreach(P, fn, start_blocks, facts=None, stop=()):
                 tgt = [tb for c, tb in t["t"] if c == v[1]]
                 work.append(((tgt[0] if tgt else t["else"]), nfs))
             else:
+                # a switch on the discriminant of a two-variant enum local teaches its variant on each edge
+                src = discr_of.get(ol[0]) if ol and not ol[1] else None
+                two = False
+                if src is not None and src not in bad:
+                    tj = P.local_tyj(fn, src)
+                    two = tj.get("k") == "adt" and tj.get("id") in ("core::option::Option", "core::result::Result", "core::ops::control_flow::ControlFlow")
+                def teach(e2, x, variant):
+                    e2[x] = ("variant", variant)
+                    cur, hops = x, 0
+                    while hops < 6:
+                        nxt = same_some.get(cur)
+                        if nxt is None:
+                            break
+                        nxt = refs.get(nxt, nxt)
+                        if nxt in bad:
+                            break
+                        tj2 = P.local_tyj(fn, nxt)
+                        if tj2.get("k") == "adt" and tj2.get("id") == "core::option::Option":
+                            e2[nxt] = ("variant", variant)
+                        cur = nxt
+                        hops += 1
                 for c, tb in t["t"]:
-                    work.append((tb, nfs))
-                work.append((t["else"], nfs))
+                    if two:
+                        e2 = dict(env)
+                        teach(e2, src, c)
+                        work.append((tb, frozenset(e2.items())))
+                    else:
+                        work.append((tb, nfs))
+                if two and len(t["t"]) == 1 and t["t"][0][0] in (0, 1):
+                    e2 = dict(env)
+                    teach(e2, src, 1 - t["t"][0][0])
+                    work.append((t["else"], frozenset(e2.items())))
+                else:
+                    work.append((t["else"], nfs))
         elif k in ("goto", "drop", "assert"):
             work.append((t["t"], frozenset(env.items())))
     return out
+
+
+def option_may_be_none(P, fn, site_block):
+    """For an `Option::expect/unwrap(x)` call at site_block: can the call be reached on a path where x is not known to be Some?
+    Returns (decided, may_be_none): decided is False when x is not a plain tracked local."""
+    t = fn.blocks[site_block]["t"]
+    ol = op_local(t["args"][0]) if t.get("args") else None
+    if not ol or ol[1]:
+        return False, True
+    target = ol[0]
+    # the operand is usually a move/copy of the real local: follow single copies backwards
+    from mirutil import defs_of
+    chain = [target]
+    cur = target
+    for _ in range(4):
+        ds = defs_of(fn, cur)
+        if len(ds) == 1 and ds[0][0] == "a" and ds[0][3]["k"] == "use" and op_local(ds[0][3]["o"]) and not op_local(ds[0][3]["o"])[1]:
+            cur = op_local(ds[0][3]["o"])[0]
+            chain.append(cur)
+        else:
+            break
+    seen_states = []
+
+    def on_call(bi, tt, env):
+        if bi == site_block:
+            v = None
+            for l in chain:
+                v = env.get(l) or v
+            seen_states.append(v)
+    kreach(P, fn, [0], on_call=on_call)
+    if not seen_states:
+        return True, False  # unreachable
+    may = any(not (v and v[0] == "variant" and v[1] == 1) for v in seen_states)
+    return True, may
